@@ -434,31 +434,41 @@ func (h *H) Write(b []byte) error {
 // SendSettings writes a SETTINGS frame and applies the values the peer model
 // needs (initial window for streams the server sends on, our table size, max frame).
 func (h *H) SendSettings(kv [][2]uint32) {
-	// whatever widens what the server may do (a larger window, a larger frame size, a larger table) is booked
-	// before the frame is written, whatever narrows it after: the server acts on the frame at some moment after
-	// the write, and the ledger must never be stricter than the server is entitled to be at that moment
+	// whatever widens what the server may do (a larger window, a larger frame size) is booked before the frame
+	// is written, whatever narrows it after: the server acts on the frame at some moment after the write, and
+	// the ledger must never be stricter than the server is entitled to be at that moment. A parameter named
+	// several times in one frame takes its last value (RFC 7540 6.5.3: processed in order).
+	final := map[uint32]uint32{}
+	for _, s := range kv {
+		switch s[0] {
+		case 4:
+			if s[1] <= 0x7fffffff {
+				final[4] = s[1]
+			}
+		case 5:
+			if s[1] >= 16384 && s[1] <= 1<<24-1 {
+				final[5] = s[1]
+			}
+		}
+	}
 	apply := func(widen bool) {
 		h.mu.Lock()
-		for _, s := range kv {
-			switch s[0] {
-			case 4:
-				if s[1] <= 0x7fffffff && (int64(s[1]) > h.InitWin) == widen && int64(s[1]) != h.InitWin {
-					delta := int64(s[1]) - h.InitWin
-					h.InitWin = int64(s[1])
-					for id := range h.StreamWin {
-						h.StreamWin[id] += delta
-					}
-				}
-			case 1:
-				if !widen {
-					// the decoder's limit: our decoder accepts size updates up to it; raising it early or late is
-					// equally safe for the encoder's peer, keep the original order
+		if v, ok := final[4]; ok && int64(v) != h.InitWin && (int64(v) > h.InitWin) == widen {
+			delta := int64(v) - h.InitWin
+			h.InitWin = int64(v)
+			for id := range h.StreamWin {
+				h.StreamWin[id] += delta
+			}
+		}
+		if v, ok := final[5]; ok && (int64(v) > h.MaxFrame) == widen {
+			h.MaxFrame = int64(v)
+		}
+		if !widen {
+			// the decoder model sees every value in order (it tracks the minimum that must be signalled)
+			for _, s := range kv {
+				if s[0] == 1 {
 					h.Dec.SetLimit(s[1])
 					h.xdec.SetAllowedMaxDynamicTableSize(s[1])
-				}
-			case 5:
-				if s[1] >= 16384 && s[1] <= 1<<24-1 && (int64(s[1]) > h.MaxFrame) == widen {
-					h.MaxFrame = int64(s[1])
 				}
 			}
 		}
@@ -759,20 +769,25 @@ func (h *H) Quiesce() (bool, string) {
 	}
 }
 
-// MutexDeadlock looks for a goroutine that is inside the library and blocked on a mutex in two
-// goroutine dumps taken 300 ms apart (same goroutine id). It is called when quiescence could not be
-// reached within its (long) timeout: with the peer idle, nothing releases such a lock any more, so
-// this is evidence of a deadlock rather than of a slow machine. It returns the stack, or "".
+// MutexDeadlock looks for evidence of a deadlock inside the library when quiescence could not be reached
+// within its (long) timeout. Two goroutine dumps are taken two seconds apart; there is evidence when
+//   - the same goroutine (by id) with a library frame is blocked on a mutex in both, and
+//   - in neither dump is any goroutine with a library frame running, runnable or in a system call (a lock
+//     holder that merely waits for the CPU on a busy machine shows up as runnable), and
+//   - no goroutine is inside a dial (Dialer.Dial / tryDial / Conn.Handshake): the client dials under its lock,
+//     and a dial makes progress through the harness's TLS peer, which this dump does not attribute to the library.
+// With the peer idle nothing releases such a lock any more. It returns the blocked goroutine's stack, or "".
 func MutexDeadlock() string {
-	blocked := func() map[string]string {
-		out := map[string]string{}
+	type view struct {
+		blocked map[string]string
+		live    bool
+	}
+	look := func() view {
+		v := view{blocked: map[string]string{}}
 		for _, g := range LibraryGoroutines() {
 			head := g
 			if i := strings.IndexByte(g, '\n'); i >= 0 {
 				head = g[:i]
-			}
-			if !strings.Contains(head, "[sync.Mutex.Lock") && !strings.Contains(head, "[sync.RWMutex") && !strings.Contains(head, "[semacquire") {
-				continue
 			}
 			body := g
 			if i := strings.Index(body, "\ncreated by "); i >= 0 {
@@ -781,22 +796,37 @@ func MutexDeadlock() string {
 			if !strings.Contains(body, "github.com/dgrr/http2.") {
 				continue
 			}
-			id := head
-			if i := strings.Index(head, " ["); i >= 0 {
-				id = head[:i]
+			if strings.Contains(body, "http2.(*Dialer).Dial") || strings.Contains(body, "http2.(*Dialer).tryDial") || strings.Contains(body, "http2.(*Conn).Handshake") {
+				v.live = true
 			}
-			out[id] = g
+			state := ""
+			if i := strings.Index(head, " ["); i >= 0 {
+				state = head[i+2:]
+			}
+			if strings.HasPrefix(state, "running") || strings.HasPrefix(state, "runnable") || strings.HasPrefix(state, "syscall") || strings.HasPrefix(state, "sleep") {
+				v.live = true
+			}
+			if strings.HasPrefix(state, "sync.Mutex.Lock") || strings.HasPrefix(state, "sync.RWMutex") || strings.HasPrefix(state, "semacquire") {
+				id := head
+				if i := strings.Index(head, " ["); i >= 0 {
+					id = head[:i]
+				}
+				v.blocked[id] = g
+			}
 		}
-		return out
+		return v
 	}
-	a := blocked()
-	if len(a) == 0 {
+	a := look()
+	if len(a.blocked) == 0 || a.live {
 		return ""
 	}
-	time.Sleep(300 * time.Millisecond)
-	b := blocked()
-	for id, g := range b {
-		if _, ok := a[id]; ok {
+	time.Sleep(2 * time.Second)
+	b := look()
+	if b.live {
+		return ""
+	}
+	for id, g := range b.blocked {
+		if _, ok := a.blocked[id]; ok {
 			return g
 		}
 	}
